@@ -426,6 +426,30 @@ def deep_family(rng, n):
         out.append(rng.choice(["", "%put ", "x=", "%let v=", "%macro q; "]) + body + rng.choice(DEEP_TAIL) + closers + rng.choice(DEEP_TAIL))
     return out
 
+
+# ----------------------------------------------------------------------------- datalines family (C01, C03, C04, C11)
+
+DL_KW = ["datalines", "cards", "lines", "datalines4", "cards4", "lines4", "DataLines4", "CARDS"]
+DL_PIECES = [";", ";;", ";;;", "a", " ", "\n", "é", "🔥", "€", "ab", "1 2", "\r\n", "\t", "中", "x;y", "'", "\"", "%let", "&v", "/*", "*"]
+
+
+def dl_family(rng, n):
+    out = []
+    # every alignment of a multi-byte character within four bytes after a ';' in the data
+    for kw in ("datalines4", "cards4", "lines4", "datalines"):
+        for pad in ("", "a", "ab", "abc", " ", "é", "éa"):
+            for mb in ("é", "éé", "€", "🔥", "中é"):
+                for term in ("\n;;;;\nrun;", "\n;\n", "", ";;;;"):
+                    out.append("%s;\nRen%s;%s%s%s" % (kw, mb, pad, mb, term))
+    for _ in range(n):
+        kw = rng.choice(DL_KW)
+        data = "".join(rng.choice(DL_PIECES) for _ in range(rng.randint(0, 8)))
+        term = rng.choice([";;;;", ";", "", ";;", ";;;", "\n;;;;\n", "\n;\n"])
+        pre = rng.choice(["", "data a; input x; ", ";", "x ", "/*c*/", "é;", "\n"])
+        post = rng.choice(["", "run;", " x", "* c;", "\n", "é"])
+        out.append(pre + kw + rng.choice(["", " ", "\n"]) + ";" + data + term + post)
+    return out
+
 # ----------------------------------------------------------------------------- C18 family
 
 SEP_STATS = ["%let a=1;", "%put x;", "%if 1 %then", "%else", "%do;", "%end;", "%macro m;", "%mend;", "%global g;",
